@@ -84,6 +84,10 @@ MATCHER = "grep-matcher"
 GLOBSET = "globset"
 PRINTER = "grep-printer"
 
+# Not registered (measured, do not finish within 25-30 min / 13 GB): the LineBuffer "drive" lemmas of
+# kani/searcher/line_buffer.rs over fully symbolic sources (c02_linebuffer_*, c14_linebuffer_*,
+# c16_linebuffer_read_error) and the differential c19_interpolate_diff (kani/matcher/interpolate.rs, TN=3).
+# Their sources are kept for reference; nothing is claimed from them.
 UNITS = [
     unit("c09_base64_roundtrip", ["C09"], PRINTER, "jsont::verif_kani",
          "jsont::base64_standard on fully symbolic <=4 bytes: RFC 4648 reference decoder recovers exactly the input; length, padding",
@@ -123,39 +127,8 @@ UNITS = [
          "same on 'ax\\n\\nc' (blank line, unterminated last line)",
          ["SummarySink::matched", "util::find_iter_at_in_context"], timeout=1500, heavy=True, rules=printer_rules(), unwind=12,
          shape=SH.from_bytes("p_ax_c", b"ax\n\nc")),
-    unit("c02_linebuffer_stream_cap1", ["C02"], SEARCHER, "line_buffer::verif_kani",
-         "LineBuffer fill/consume/roll/grow over a FULLY SYMBOLIC <=4-byte source, symbolic read sizes 1..=2, initial capacity "
-         "1 / 3 (eager growth): the exposed stream is exactly the source (no byte lost, duplicated, reordered), final offset = length",
-         ["LineBuffer::fill", "LineBuffer::roll", "LineBuffer::ensure_capacity", "LineBuffer::consume", "LineBuffer::buffer"],
-         timeout=2400, tier="thorough"),
-    unit("c02_linebuffer_stream_cap3", ["C02"], SEARCHER, "line_buffer::verif_kani",
-         "LineBuffer fill/consume/roll/grow over a FULLY SYMBOLIC <=4-byte source, symbolic read sizes 1..=2, initial capacity "
-         "1 / 3 (eager growth): the exposed stream is exactly the source (no byte lost, duplicated, reordered), final offset = length",
-         ["LineBuffer::fill", "LineBuffer::roll", "LineBuffer::ensure_capacity", "LineBuffer::consume", "LineBuffer::buffer"],
-         timeout=2400, tier="thorough"),
-    unit("c02_linebuffer_whole_lines_cap1", ["C02"], SEARCHER, "line_buffer::verif_kani",
-         "every fill() exposes whole lines only, except at end of input (symbolic source, reads, capacity)",
-         ["LineBuffer::fill"], timeout=2400, tier="thorough"),
-    unit("c02_linebuffer_whole_lines_cap3", ["C02"], SEARCHER, "line_buffer::verif_kani",
-         "every fill() exposes whole lines only, except at end of input (symbolic source, reads, capacity)",
-         ["LineBuffer::fill"], timeout=2400, tier="thorough"),
-    unit("c14_linebuffer_quit_cap1", ["C14"], SEARCHER, "line_buffer::verif_kani",
-         "quit detection over a fully symbolic source: exactly the bytes before the first NUL are exposed, none is a NUL, "
-         "binary offset == first NUL", ["LineBuffer::fill"], timeout=2400, tier="thorough"),
-    unit("c14_linebuffer_quit_cap3", ["C14"], SEARCHER, "line_buffer::verif_kani",
-         "quit detection over a fully symbolic source: exactly the bytes before the first NUL are exposed, none is a NUL, "
-         "binary offset == first NUL", ["LineBuffer::fill"], timeout=2400, tier="thorough"),
-    unit("c14_linebuffer_convert_cap1", ["C14"], SEARCHER, "line_buffer::verif_kani",
-         "convert detection over a fully symbolic source: every NUL becomes the terminator, other bytes unchanged, offset == first NUL",
-         ["LineBuffer::fill", "line_buffer::replace_bytes"], timeout=2400, tier="thorough"),
-    unit("c14_linebuffer_convert_cap3", ["C14"], SEARCHER, "line_buffer::verif_kani",
-         "convert detection over a fully symbolic source: every NUL becomes the terminator, other bytes unchanged, offset == first NUL",
-         ["LineBuffer::fill", "line_buffer::replace_bytes"], timeout=2400, tier="thorough"),
     unit("c14_replace_bytes", ["C14"], SEARCHER, "line_buffer::verif_kani",
          "replace_bytes on fully symbolic bytes/needle/replacement", ["line_buffer::replace_bytes"], timeout=600),
-    unit("c16_linebuffer_read_error", ["C16"], SEARCHER, "line_buffer::verif_kani",
-         "a read() failing at symbolic call index j surfaces from fill(); exposed bytes are a source prefix",
-         ["LineBuffer::fill"], timeout=2400, tier="thorough"),
     unit("c12_file_name", ["C12", "C04"], GLOBSET, "pathutil::verif_kani",
          "pathutil::file_name on a fully symbolic <=6-byte path == last path component (None only for empty, `.`, `..`)",
          ["globset::pathutil::file_name"], timeout=600),
@@ -180,11 +153,6 @@ UNITS = [
          "Matcher::captures_iter (default try_captures_iter_at, what replace_with_captures/Replacer::replace_all use) over "
          "a symbolic span table yields exactly the regex library's successive matches",
          ["Matcher::try_captures_iter_at", "Matcher::captures_iter"], timeout=600),
-    unit("c19_interpolate_diff", ["C19"], MATCHER, "interpolate::verif_kani::diff",
-         "grep_matcher::interpolate == regex_automata::util::interpolate::bytes (the pinned 0.4.7) on every template "
-         "of <=3 symbols over {$,{,},1,2,a,-,0xFF}, 3 groups (one unset), one named",
-         ["interpolate::interpolate", "interpolate::find_cap_ref", "regex_automata::util::interpolate::bytes"],
-         timeout=1800, tier="thorough"),
     unit("lines_locate", ["C03", "C13"], SEARCHER, "lines::verif_kani",
          "lines::locate on fully symbolic <=6 bytes, any terminator, any span: minimal covering line range",
          ["lines::locate"], interesting=("interior line located",)),
@@ -480,24 +448,24 @@ FAMILIES = [
                 "passthru, numbering); EVERY span table of the shape (<=3 bytes) / every table with <=2 match starts (4-5 bytes) "
                 "x {no context, (A,B)=(1,1)} enumerated in-harness; line numbering symbolic",
                 MULTI_FUNCS, heavy=lambda sh: len(sh.hay) >= 3, timeout=1500, rules=multi_rules(2), unwind=lambda sh: 800,
-                quick_shapes=["q_one_unterm", "q_one", "q_blank", "m_two_unterm", "q_two"], thorough_shapes=["m_blank_mid", "m_three"]),
+                quick_shapes=["q_one_unterm", "q_one", "q_blank", "m_two_unterm", "q_two"], thorough_shapes=["m_blank_mid"]),
     ShapeFamily("c13_multiline_inv", ["C13"], SEARCHER, CORE_MOD, GEN,
                 "MultiLine::run == lines covered by the successive matches of a span table (merged runs, contexts, invert, "
                 "passthru, numbering); EVERY span table of the shape (<=3 bytes) / every table with <=2 match starts (4-5 bytes) "
                 "INVERTED, x {no context, (A,B)=(1,1)} enumerated in-harness; line numbering symbolic",
                 MULTI_FUNCS, heavy=lambda sh: len(sh.hay) >= 3, timeout=1500, rules=multi_rules(2), unwind=lambda sh: 800,
-                quick_shapes=["q_one_unterm", "q_one", "q_blank", "m_two_unterm"], thorough_shapes=["q_two", "m_blank_mid", "m_three"]),
+                quick_shapes=["q_one_unterm", "q_one", "q_blank", "m_two_unterm"], thorough_shapes=["q_two"]),
     ShapeFamily("c13_multiline_passthru", ["C13"], SEARCHER, CORE_MOD, GEN,
                 "MultiLine::run == lines covered by the successive matches of a span table (merged runs, contexts, invert, "
                 "passthru, numbering); EVERY span table of the shape (<=3 bytes) / every table with <=2 match starts (4-5 bytes) "
                 "with passthru, enumerated in-harness; line numbering symbolic",
                 MULTI_FUNCS, heavy=lambda sh: len(sh.hay) >= 3, timeout=1500, rules=multi_rules(2), unwind=lambda sh: 800,
-                quick_shapes=["q_one_unterm", "q_one", "q_blank", "m_two_unterm"], thorough_shapes=["q_two", "m_blank_mid", "m_three"]),
+                quick_shapes=["q_one_unterm", "q_one", "q_blank", "m_two_unterm"], thorough_shapes=["q_two", "m_blank_mid"]),
     ShapeFamily("c13_multiline_lookbehind", ["C13"], SEARCHER, CORE_MOD, GEN,
                 "MultiLine::run with look-behind patterns: besides the span table E, every alternative answer E0[p] at a "
                 "resumption point taken as start-of-haystack is enumerated (tables with one match start; plain and inverted+context); the result must follow the whole-input table E",
                 MULTI_FUNCS, heavy=lambda sh: len(sh.hay) >= 3, timeout=1500, rules=multi_rules(2), unwind=lambda sh: 800,
-                quick_shapes=["q_one_unterm", "q_one", "m_two_unterm"], thorough_shapes=["q_two"]),
+                quick_shapes=["q_one_unterm", "q_one", "m_two_unterm"], thorough_shapes=[]),
     ShapeFamily("c13_reader_reuse", ["C13", "C02"], SEARCHER, CORE_MOD, GEN,
                 "Searcher::search_reader in multi-line mode (whole input read into the Searcher's reused buffer, 2-byte reads) run TWICE on one "
                 "Searcher: both runs == model (every span table with <=1 match start enumerated; numbering symbolic)",
